@@ -21,6 +21,11 @@ CLAIMS = {
         "Exploration: ~7k (quick) / ~50k (thorough) generated (model, dim, parameters, 0..max_pd+1 dispersed parameters, cutoff, partition) cases over all 61 compiled models; all five call_Fq outputs and call_kernel compared at 1e-9 of the summand magnitude; one defect repaired (single-point truncation), one listed (empty mesh).",
         "Trusts the C compiler, the model's own function bodies (they are the specification of F^2, V, R_eff), weights.get_weights (C02) and numpy; slow models get a measured mesh cap; NaN-weight and cancelling-normalisation requests are counted, not compared.",
         "DESIGN.md section 3 C01"),
+    "C03": (
+        "Hypothesis-generated q grids / widths / slit geometries / 2-D pixel sets; oracle = validity predicates on the constructed resolution objects (non-negative weights, unit row sums, strictly positive q_calc spanning each documented window, exact zero-width identity) and DirectModel linearity (metamorphic)",
+        "Exploration: ~3k (quick) / ~60k (thorough) generated resolution objects over pinhole, slit (L, W, L+W; scalar and per point; W<L and W>L), 2-D at all accuracy levels and user-supplied q_calc; three defects repaired, two listed findings keyed by geometry class; inside the listed low-q-cutoff region the row sum must still equal one minus the mass below the cutoff.",
+        "Windows as documented; irregular grids without near-duplicate points (60 s construction budget = inconclusive); spacing >= 2e-6; tolerance for telescoping sqrt sums scaled by eps q^2/L^2.",
+        "DESIGN.md section 3 C03"),
     "C05": (
         "Hypothesis-generated view/jitter/detector configurations per oriented model; oracle = numpy rotation reference R=RzRyRzRxRyRz applied to the model's own Iqac/Iqabc (shim) with |cos dtheta| weights, plus metamorphic relations (detector rotation, inversion, isotropy, 1-D independence)",
         "Exploration: ~1.9k (quick) / ~38k (thorough) oriented cases over all 21 oriented models plus ~800 isotropy cases over the un-oriented models; every clause of the statement is an executable predicate.",
